@@ -226,64 +226,116 @@ func (c *Ctx) c18Attr() {
 	}
 	val := extractOf(tagAttr, 1)
 	key := extractOf(tagAttr, 0)
-	// forward taint from val; EscapeString sanitises
-	tainted := map[ssa.Value]bool{val: true}
-	var escapes []*ssa.Call
-	work := []ssa.Value{val}
-	var leaks []string
-	for len(work) > 0 {
-		v := work[len(work)-1]
-		work = work[:len(work)-1]
-		if v.Referrers() == nil {
-			continue
-		}
-		for _, ref := range *v.Referrers() {
-			switch x := ref.(type) {
-			case *ssa.Convert, *ssa.ChangeType, *ssa.Phi, *ssa.Slice, *ssa.Extract:
-				nv := ref.(ssa.Value)
-				if !tainted[nv] {
-					tainted[nv] = true
-					work = append(work, nv)
-				}
-			case *ssa.Call:
-				name := eng.CalleeName(x.Common())
-				switch {
-				case strings.HasSuffix(name, "html.EscapeString"):
-					escapes = append(escapes, x)
-				case eng.StaticCallee(x.Common()) == cssFilter:
-					if !tainted[x] {
-						tainted[x] = true
-						work = append(work, x)
-					}
-				case eng.StaticCallee(x.Common()) != nil && eng.FuncPkgPath(eng.StaticCallee(x.Common())) == eng.Mod+"/"+sanRel:
-					// a package helper: the taint continues in its parameter and in its result
-					g := eng.StaticCallee(x.Common())
-					for i, a := range x.Call.Args {
-						if a == v && i < len(g.Params) && !tainted[g.Params[i]] {
-							tainted[g.Params[i]] = true
-							work = append(work, g.Params[i])
-						}
-					}
-				case name == "builtin.append":
-					leaks = append(leaks, "attribute value appended to the output at "+p.InstrPos(x)+" without html.EscapeString")
-				case name == "strings.ToLower" || name == "builtin.len":
-				default:
-					leaks = append(leaks, "attribute value passed to "+name+" at "+p.InstrPos(x))
-				}
-			case *ssa.BinOp, *ssa.DebugRef:
-			case *ssa.Return:
-				// a helper returns the raw value: it is tainted at every call site
-				for _, cs := range p.StaticCallSites(x.Parent()) {
-					if cv, ok := cs.Instr.(*ssa.Call); ok && !tainted[cv] {
-						tainted[cv] = true
-						work = append(work, cv)
-					}
-				}
-			case *ssa.Store:
-				leaks = append(leaks, "attribute value stored at "+p.InstrPos(x))
+	// forward taint; EscapeString sanitises. Values stored into a struct field are followed
+	// field-wise: every load of that field in the package carries the taint (a record type
+	// such as html.Attribute that holds the attributes between reading and writing them).
+	sanFns := pkgFuncs(p, sanRel)
+	type taintRes struct {
+		tainted map[ssa.Value]bool
+		fields  map[*types.Var]bool
+		escapes []*ssa.Call
+		leaks   []string
+		filters []*ssa.Call // cssFilter calls on a tainted value
+	}
+	propagate := func(src ssa.Value, isValue bool) taintRes {
+		res := taintRes{tainted: map[ssa.Value]bool{src: true}, fields: map[*types.Var]bool{}}
+		work := []ssa.Value{src}
+		add := func(v ssa.Value) {
+			if !res.tainted[v] {
+				res.tainted[v] = true
+				work = append(work, v)
 			}
 		}
+		taintField := func(f *types.Var) {
+			if f == nil || res.fields[f] {
+				return
+			}
+			res.fields[f] = true
+			for _, g := range sanFns {
+				eng.EachInstr(g, func(in ssa.Instruction) {
+					switch y := in.(type) {
+					case *ssa.UnOp:
+						if fa, ok := y.X.(*ssa.FieldAddr); ok && y.Op == token.MUL && eng.SameField(eng.FieldOfAddr(fa), f) {
+							add(y)
+						}
+					case *ssa.Field:
+						if st, ok := y.X.Type().Underlying().(*types.Struct); ok && y.Field < st.NumFields() && eng.SameField(st.Field(y.Field), f) {
+							add(y)
+						}
+					}
+				})
+			}
+		}
+		for len(work) > 0 {
+			v := work[len(work)-1]
+			work = work[:len(work)-1]
+			if v.Referrers() == nil {
+				continue
+			}
+			for _, ref := range *v.Referrers() {
+				switch x := ref.(type) {
+				case *ssa.Convert, *ssa.ChangeType, *ssa.Phi, *ssa.Slice, *ssa.Extract:
+					add(ref.(ssa.Value))
+				case *ssa.Call:
+					name := eng.CalleeName(x.Common())
+					switch {
+					case strings.HasSuffix(name, "html.EscapeString"):
+						res.escapes = append(res.escapes, x)
+					case eng.StaticCallee(x.Common()) == cssFilter:
+						res.filters = append(res.filters, x)
+						add(x)
+					case eng.StaticCallee(x.Common()) != nil && eng.FuncPkgPath(eng.StaticCallee(x.Common())) == eng.Mod+"/"+sanRel:
+						// a package helper: the taint continues in its parameter and in its result
+						g := eng.StaticCallee(x.Common())
+						for i, a := range x.Call.Args {
+							if a == v && i < len(g.Params) {
+								add(g.Params[i])
+							}
+						}
+					case name == "builtin.append":
+						if isValue {
+							// appending a string to a []byte writes it out; appending records to a
+							// slice of records only moves them
+							if sl, ok := x.Type().Underlying().(*types.Slice); ok {
+								if b, ok := sl.Elem().Underlying().(*types.Basic); ok && b.Kind() == types.Uint8 {
+									res.leaks = append(res.leaks, "attribute value appended to the output at "+p.InstrPos(x)+" without html.EscapeString")
+								}
+							}
+						}
+					case name == "strings.ToLower" || name == "builtin.len":
+						if !isValue {
+							add(x)
+						}
+					default:
+						if isValue {
+							res.leaks = append(res.leaks, "attribute value passed to "+name+" at "+p.InstrPos(x))
+						}
+					}
+				case *ssa.BinOp, *ssa.DebugRef:
+				case *ssa.Return:
+					// a helper returns the raw value: it is tainted at every call site
+					for _, cs := range p.StaticCallSites(x.Parent()) {
+						if cv, ok := cs.Instr.(*ssa.Call); ok {
+							add(cv)
+						}
+					}
+				case *ssa.Store:
+					if fa, ok := x.Addr.(*ssa.FieldAddr); ok && x.Val == v {
+						taintField(eng.FieldOfAddr(fa))
+						continue
+					}
+					if isValue {
+						res.leaks = append(res.leaks, "attribute value stored at "+p.InstrPos(x))
+					}
+				}
+			}
+		}
+		return res
 	}
+	tv := propagate(val, true)
+	tk := propagate(key, false)
+	tainted, escapes, leaks := tv.tainted, tv.escapes, tv.leaks
+	_ = tainted
 	var probs []string
 	probs = append(probs, leaks...)
 	if len(escapes) == 0 {
@@ -395,6 +447,58 @@ func (c *Ctx) c18Attr() {
 		}
 		if filtered && !rawUnder {
 			styleOK = true
+		}
+	}
+	if !styleOK {
+		// in-place form: under lower(key)=="style" the value field of a record is replaced by
+		// the CSS filter's result for that same field (attr.Val = sanitizeStyle(attr.Val))
+		for _, fc := range tv.filters {
+			if fc.Referrers() == nil {
+				continue
+			}
+			for _, ref := range *fc.Referrers() {
+				st, ok := ref.(*ssa.Store)
+				if !ok || st.Val != ssa.Value(fc) {
+					continue
+				}
+				fa, ok := st.Addr.(*ssa.FieldAddr)
+				if !ok || !tv.fields[eng.FieldOfAddr(fa)] {
+					continue
+				}
+				// the filtered value was loaded from the same field of the same record
+				same := false
+				if u, ok := fc.Call.Args[0].(*ssa.UnOp); ok {
+					if fa0, ok := u.X.(*ssa.FieldAddr); ok && fa0.X == fa.X && fa0.Field == fa.Field {
+						same = true
+					}
+				}
+				if !same {
+					continue
+				}
+				// under the style edge on the key of that record
+				for _, b := range st.Parent().Blocks {
+					for k := 0; k < len(b.Succs) && len(b.Succs) == 2; k++ {
+						rel, ok := eng.EdgeRel(b, k)
+						if !ok || rel.Op != token.EQL || !eng.EdgeDominates(b, k, st.Block()) {
+							continue
+						}
+						sv, isC := eng.ConstString(rel.Y)
+						lc, isCall := rel.X.(*ssa.Call)
+						if !isC || sv != "style" || !isCall || eng.CalleeName(lc.Common()) != "strings.ToLower" {
+							continue
+						}
+						arg := eng.StripConv(lc.Call.Args[0])
+						if !tk.tainted[arg] && !tk.tainted[lc.Call.Args[0]] {
+							continue
+						}
+						if u, ok := arg.(*ssa.UnOp); ok {
+							if fk, ok := u.X.(*ssa.FieldAddr); ok && fk.X == fa.X {
+								styleOK = true
+							}
+						}
+					}
+				}
+			}
 		}
 	}
 	if !styleOK {
@@ -617,6 +721,12 @@ func (c *Ctx) c18CSS() {
 				refs := false
 				for _, op := range in.Operands(nil) {
 					if *op == ssa.Value(fn) {
+						refs = true
+					}
+				}
+				// a method value f.valid: the closure over the bound-method wrapper
+				if mc, ok := in.(*ssa.MakeClosure); ok {
+					if w, ok := mc.Fn.(*ssa.Function); ok && eng.UnwrapBound(w) == fn && w != fn {
 						refs = true
 					}
 				}
@@ -851,6 +961,19 @@ func (c *Ctx) c18Text() {
 					if !isC || markup(newS) {
 						probs = append(probs, "escaped text passes "+name+" at "+p.InstrPos(call)+" whose replacement re-introduces markup characters")
 					}
+				case "(*strings.Builder).WriteString":
+					// the text flows into the builder: continue with what is read back from it
+					if len(call.Call.Args) == 2 && call.Call.Args[1] == v {
+						if sb := call.Call.Args[0]; sb.Referrers() != nil {
+							for _, r3 := range *sb.Referrers() {
+								if sc, ok := r3.(*ssa.Call); ok && eng.CalleeName(sc.Common()) == "(*strings.Builder).String" && !seen[sc] {
+									seen[sc] = true
+									work = append(work, sc)
+								}
+							}
+						}
+					}
+					continue
 				case "fmt.Sprintf", "(*regexp.Regexp).ReplaceAllStringFunc", "(*strings.Replacer).Replace", "builtin.len":
 				default:
 					if g := eng.StaticCallee(call.Common()); g != nil && eng.FuncPkgPath(g) == eng.FuncPkgPath(fn) && len(g.Blocks) > 0 {
@@ -914,6 +1037,36 @@ func (c *Ctx) c18Text() {
 			case "strings.ReplaceAll", "strings.Replace":
 				return builtFrom(x.Call.Args[0], leaves, depth+1)
 			}
+			// strings.Builder: the concatenation of everything written to it
+			if eng.CalleeName(x.Common()) == "(*strings.Builder).String" {
+				sb := x.Call.Args[0]
+				if sb.Referrers() == nil {
+					return false
+				}
+				n := 0
+				for _, ref := range *sb.Referrers() {
+					wc, ok := ref.(*ssa.Call)
+					if !ok || wc == x {
+						continue
+					}
+					switch eng.CalleeName(wc.Common()) {
+					case "(*strings.Builder).WriteString":
+						n++
+						if !builtFrom(wc.Call.Args[1], leaves, depth+1) {
+							return false
+						}
+					case "(*strings.Builder).WriteByte", "(*strings.Builder).WriteRune":
+						n++
+						if _, isC := wc.Call.Args[1].(*ssa.Const); !isC {
+							return false
+						}
+					case "(*strings.Builder).Grow", "(*strings.Builder).Len", "(*strings.Builder).Reset":
+					default:
+						return false
+					}
+				}
+				return n > 0
+			}
 			// a helper of the package that renders its string parameters into constant markup
 			// (anchor(href, label))
 			g := eng.StaticCallee(x.Common())
@@ -958,7 +1111,7 @@ func (c *Ctx) c18Text() {
 		}
 		eng.EachInstr(g, func(in ssa.Instruction) {
 			if call, ok := in.(*ssa.Call); ok && eng.CalleeName(call.Common()) == "strings.NewReplacer" {
-				if _, all := variadicStrings(call.Call.Args[0]); !all {
+				if _, all := variadicStrings(call.Call.Args[0]); !all && !c.constStringSlice(call.Call.Args[0], 0) {
 					probs = append(probs, "strings.NewReplacer is given non-constant replacement strings")
 				}
 			}
@@ -1091,4 +1244,123 @@ func helperPassesThrough(g *ssa.Function, prm *ssa.Parameter, allowed map[string
 		}
 	}
 	return n > 0
+}
+
+// constStringSlice: a []string whose elements are all constants: built by appends of constant
+// strings or of elements of a package-level array/slice that is initialised with constants and
+// never written elsewhere.
+func (c *Ctx) constStringSlice(v ssa.Value, depth int) bool {
+	return c.constStringSliceB(v, depth, map[ssa.Value]bool{})
+}
+
+func (c *Ctx) constStringSliceB(v ssa.Value, depth int, busy map[ssa.Value]bool) bool {
+	if depth > 8 {
+		return false
+	}
+	if busy[v] {
+		return true // an accumulator: judged by its other operands
+	}
+	busy[v] = true
+	defer delete(busy, v)
+	p := c.P
+	constElem := func(e ssa.Value) bool {
+		if _, isC := eng.ConstString(e); isC {
+			return true
+		}
+		var g *ssa.Global
+		switch y := e.(type) {
+		case *ssa.UnOp:
+			if ia, ok := y.X.(*ssa.IndexAddr); ok {
+				switch b := ia.X.(type) {
+				case *ssa.Global:
+					g = b
+				case *ssa.UnOp:
+					g, _ = b.X.(*ssa.Global)
+				}
+			}
+		case *ssa.Index:
+			// element of a copy of a package-level array
+			if lu, ok := y.X.(*ssa.UnOp); ok {
+				g, _ = lu.X.(*ssa.Global)
+			}
+		}
+		if g == nil {
+			return false
+		}
+		// every store into the global (init code) is a constant; no other function writes it
+		okAll, n := true, 0
+		fnsW := append([]*ssa.Function(nil), p.Funcs...)
+		if g.Pkg != nil {
+			if pi := g.Pkg.Func("init"); pi != nil {
+				fnsW = append(fnsW, pi)
+			}
+		}
+		for _, fn := range fnsW {
+			eng.EachInstr(fn, func(in ssa.Instruction) {
+				st, isSt := in.(*ssa.Store)
+				if !isSt {
+					return
+				}
+				base := st.Addr
+				if ia2, isIA := base.(*ssa.IndexAddr); isIA {
+					base = ia2.X
+				}
+				if base != ssa.Value(g) {
+					return
+				}
+				n++
+				if fn.Name() != "init" {
+					okAll = false
+				}
+				if _, isC := eng.ConstString(st.Val); !isC {
+					if _, isArr := st.Val.(*ssa.Const); !isArr {
+						okAll = false
+					}
+				}
+			})
+		}
+		return okAll && n > 0
+	}
+	switch x := v.(type) {
+	case *ssa.Const:
+		return x.IsNil()
+	case *ssa.MakeSlice:
+		if k, ok := eng.ConstInt(x.Len); ok && k == 0 {
+			return true
+		}
+		return false
+	case *ssa.Phi:
+		for _, e := range x.Edges {
+			if e != v && !c.constStringSliceB(e, depth+1, busy) {
+				return false
+			}
+		}
+		return true
+	case *ssa.Slice:
+		if k, ok := eng.ConstInt(x.High); ok && k == 0 && x.High != nil {
+			return true // empty prefix of a fresh array: make([]string, 0, n)
+		}
+		if al, ok := x.X.(*ssa.Alloc); ok && al.Referrers() != nil {
+			n := 0
+			for _, ref := range *al.Referrers() {
+				if ia, ok := ref.(*ssa.IndexAddr); ok {
+					for _, r2 := range *ia.Referrers() {
+						if st, ok := r2.(*ssa.Store); ok {
+							n++
+							if !constElem(st.Val) {
+								return false
+							}
+						}
+					}
+				}
+			}
+			return n > 0 || strings.HasPrefix(eng.ShortType(al.Type()), "*[0]")
+		}
+		return c.constStringSliceB(x.X, depth+1, busy)
+	case *ssa.Call:
+		if eng.CalleeName(x.Common()) == "builtin.append" && len(x.Call.Args) == 2 {
+			return c.constStringSliceB(x.Call.Args[0], depth+1, busy) && c.constStringSliceB(x.Call.Args[1], depth+1, busy)
+		}
+	}
+	return false
 }
